@@ -2,7 +2,7 @@
 """Writes seeded/<id>/meta.json for every confirmed seeded change (from confirm.txt and NOTES.md)."""
 import json, os, re, glob
 V = os.path.dirname(os.path.dirname(os.path.abspath(__file__)))
-for d in sorted(glob.glob(os.path.join(V, 'seeded', 'C[0-9][0-9]-[0-9]')) + glob.glob(os.path.join(V, 'seeded', 'C[0-9][0-9]-r[2345]-[0-9]'))):
+for d in sorted(glob.glob(os.path.join(V, 'seeded', 'C[0-9][0-9]-[0-9]')) + glob.glob(os.path.join(V, 'seeded', 'C[0-9][0-9]-r[23456]-[0-9]'))):
     name = os.path.basename(d)
     prop, n = name.split('-')[0], name.split('-')[-1]
     ct = os.path.join(d, 'confirm.txt')
@@ -37,7 +37,7 @@ for d in sorted(glob.glob(os.path.join(V, 'seeded', 'C[0-9][0-9]-[0-9]')) + glob
         continue
     meta = {
         "property": prop,
-        "source": "independent sub-agent given only the property text and a scratch worktree (/tmp/seed%s-%s)" % ("2" if "-r2-" in name else "3" if "-r3-" in name else "4" if "-r4-" in name else "5" if "-r5-" in name else "", prop),
+        "source": "independent sub-agent given only the property text and a scratch worktree (/tmp/seed%s-%s)" % ("2" if "-r2-" in name else "3" if "-r3-" in name else "4" if "-r4-" in name else "5" if "-r5-" in name else "6" if "-r6-" in name else "", prop),
         "needs_to_manifest": old.get("needs_to_manifest") or ' '.join(part.split())[:1500],
         "confirmed": conf.strip().split('\n')[0],
         "caught_by": ["%s quick (%s)" % (c, ' '.join(s.split())) for c, s in caught],
